@@ -41,6 +41,7 @@ type c05RT struct {
 	Unh      []bool      `json:"unh"`
 	Scripts  []c05Script `json:"scripts"`
 	Env      [][]bool    `json:"env,omitempty"`
+	Fx0      [][]int     `json:"fx0,omitempty"` // per host: expiry (odd half units) of failures recorded by other requests
 	MaxConns bool        `json:"maxconns,omitempty"`
 }
 
@@ -143,12 +144,23 @@ func (u *c05Up) Select(req *http.Request) *proxy.UpstreamHost {
 		}
 	}
 	// Fails against the harness's own books (only meaningful with fail_timeout on)
-	if r.in.FT2 > 0 {
+	if r.in.FT2 > 0 || len(r.in.Fx0) > 0 {
 		ft := time.Duration(r.in.FT2) * r.grid / 2
 		for i, h := range r.hosts {
 			exp := 0
-			for _, at := range r.fails[i] {
-				d := at + ft - now
+			var expiries []time.Duration
+			if r.in.FT2 > 0 {
+				for _, at := range r.fails[i] {
+					expiries = append(expiries, at+ft)
+				}
+			}
+			if i < len(r.in.Fx0) {
+				for _, x := range r.in.Fx0[i] {
+					expiries = append(expiries, time.Duration(x)*r.grid/2)
+				}
+			}
+			for _, e := range expiries {
+				d := e - now
 				if d < r.grid/8 && d > -r.grid/8 {
 					r.margin = true
 				}
@@ -389,6 +401,20 @@ func c05Timed(in *c05In, scale int) (Result, int) {
 	hung, panicked := false, ""
 	done := make(chan struct{})
 	run.t0 = time.Now()
+	// failures other requests recorded earlier: counted now, taken back when they expire
+	for i, xs := range rt.Fx0 {
+		if i >= n {
+			break
+		}
+		for _, x := range xs {
+			h, at := run.hosts[i], run.t0.Add(time.Duration(x)*grid/2)
+			atomic.AddInt32(&h.Fails, 1)
+			go func() {
+				time.Sleep(time.Until(at))
+				atomic.AddInt32(&h.Fails, -1)
+			}()
+		}
+	}
 	go func() {
 		defer close(done)
 		defer func() {
@@ -504,7 +530,15 @@ func c05Timed(in *c05In, scale int) (Result, int) {
 			}
 		}
 	}
-	return Result{Term: cApp("CRetryT", pterm, cfg, bs(rt.Unh), cList(scr), cList(env), cList(evs), out),
+	var fx0 []string
+	for _, xs := range rt.Fx0 {
+		var l []uint64
+		for _, x := range xs {
+			l = append(l, uint64(x))
+		}
+		fx0 = append(fx0, cNList(l))
+	}
+	return Result{Term: cApp("CRetryT", pterm, cfg, bs(rt.Unh), cList(scr), cList(env), cList(fx0), cList(evs), out),
 		Obs: map[string]interface{}{"events": obsEv, "status": status, "code": rec.Code, "final_host": final, "end_tick": tEnd,
 			"grid_ms": float64(grid) / 1e6, "notes": run.notes},
 		Direct: direct, Sig: sig, Nontrivial: nfailed > 0,
@@ -599,6 +633,14 @@ func c05GenTimed(r *Rand, tier string) []interface{} {
 				rt.Env = append(rt.Env, row)
 			}
 		}
+		if r.Chance(25) {
+			rt.Fx0 = make([][]int, n)
+			for j := range rt.Fx0 {
+				for k := r.Intn(3); k > 0; k-- {
+					rt.Fx0[j] = append(rt.Fx0[j], 2*r.Intn(8)+1)
+				}
+			}
+		}
 		if r.Chance(55) {
 			// a host that stays healthy, fail_timeout on and a budget that covers the others:
 			// the hypotheses of C05_retry_reaches_healthy
@@ -607,6 +649,9 @@ func c05GenTimed(r *Rand, tier string) []interface{} {
 			rt.Scripts[g] = c05Script{Dflt: c05Step{K: "ok", D: r.Pick2(0, 1)}}
 			for _, row := range rt.Env {
 				row[g] = false
+			}
+			if g < len(rt.Fx0) && r.Chance(70) {
+				rt.Fx0[g] = nil
 			}
 			rt.FT2 = 201
 			rt.TD2 = r.Pick2(9, 13, 17, 23)
